@@ -28,7 +28,7 @@ HALF = 0.5e-6 + 1e-9
 
 def cases(tier, seed):
     rng = np.random.default_rng([13, seed])
-    n = 240 if tier == "quick" else 6000
+    n = 240 if tier == "quick" else 120000
     out = []
     for j in range(n):
         out.append({"s": int(rng.integers(1 << 30)), "style": ["full", "atomic"][j % 2], "cell": ["ortho", "tri"][(j // 2) % 2],
@@ -304,7 +304,7 @@ def run_case(case, ctx):
 
 def requirements(stats, tier):
     need = []
-    if stats.get("files_parsed_independently") < (200 if tier == "quick" else 4000):
+    if stats.get("files_parsed_independently") < (200 if tier == "quick" else 100000):
         need.append("too few files observed")
     if stats.nseen("cell") < 9:
         need.append("not all tilt-sign combinations observed (%d of 9 cell classes)" % stats.nseen("cell"))
